@@ -659,11 +659,18 @@ def deep_origins(ws, fn, operand, mode=True, depth=3, _seen=None):
             params.setdefault(int(m.group(1)), set()).add(m.group(2) or '')
     if not params:
         return out
-    for caller, _line in ws.callers_of(root.name):
+    names = [root.name]
+    mt = _re.match(r'^<.* as (.*)>::([A-Za-z0-9_]+)$', root.name)
+    if mt:
+        names.append(mt.group(1) + '::' + mt.group(2))     # calls through the trait (dyn / generic dispatch)
+    callers = []
+    for nm in names:
+        callers.extend(ws.callers_of(nm))
+    for caller, _line in callers:
         if caller.unit.tag not in ('lib', 'bin'):
             continue
         for c in caller.body.calls():
-            if root.name not in c.names():
+            if not any(nm in c.names() for nm in names):
                 continue
             for k, suffixes in params.items():
                 if 0 < k <= len(c.args):
